@@ -289,8 +289,8 @@ t_nleaves(const char *s)
 	return n;
 }
 
-enum { R_FULL, R_MIN, R_BLANK, NREND };
-static const char *const rend_name[NREND] = {"full-parens", "min-parens", "blank-separated"};
+enum { R_FULL, R_MIN, R_BLANK, R_TAB, NREND };
+static const char *const rend_name[NREND] = {"full-parens", "min-parens", "blank-separated", "tab-separated"};
 
 /* render: ATOM[i] is the text of leaf i (or letters for the skeleton) */
 static void
@@ -299,7 +299,7 @@ t_render(char *out, size_t osz, const char **sp, const char *const atom[], int m
 	const char *s = *sp;
 	int neg = 0;		/* number of negations on this node: written !!x (min, blank) resp. !(!(x)) (full) */
 	size_t k = strlen(out);
-	const char *sep = mode == R_BLANK ? " " : "";
+	const char *sep = mode == R_BLANK ? " " : mode == R_TAB ? "\t" : "";
 
 	while (*s == '!') {
 		neg++;
@@ -339,22 +339,22 @@ t_render(char *out, size_t osz, const char **sp, const char *const atom[], int m
 			for (int i = 0; i < neg; i++) {
 				k += (size_t)snprintf(out + k, osz - k, ")");
 			}
-		} else if (mode == R_BLANK) {
+		} else if (mode == R_BLANK || mode == R_TAB) {
 			/* blanks around the operator of the atom as well: "%Y = 2012" */
 			char tmp[64];
 			size_t j = 0;
 			for (const char *p = a; *p && j + 4 < sizeof(tmp); p++) {
 				if ((*p == '=' || *p == '<' || *p == '>') && p > a && p[-1] != '=' && p[-1] != '<' && p[-1] != '>' && p[-1] != '!') {
-					tmp[j++] = ' ';
+					tmp[j++] = *sep;
 				}
 				tmp[j++] = *p;
 				if ((*p == '=' || *p == '<' || *p == '>') && p[1] != '=' && p[1] != '>') {
-					tmp[j++] = ' ';
+					tmp[j++] = *sep;
 				}
 			}
 			tmp[j] = '\0';
 			for (int i = 0; i < neg; i++) {
-				k += (size_t)snprintf(out + k, osz - k, "! ");
+				k += (size_t)snprintf(out + k, osz - k, "!%s", sep);
 			}
 			snprintf(out + k, osz - k, "%s", tmp);
 		} else {
@@ -814,7 +814,7 @@ do_tree(const char *tree, int set, int mode, int replay)
 		reduce(red, set, nl, mode, 1 << i, kind[i]);
 		skeleton(sk, sizeof(sk), red);
 		render(rexpr, sizeof(rexpr), red, sets[set].atom, mode);
-		snprintf(key, sizeof(key), "%s%s | %s", mode == R_BLANK ? "blank-separated: " : "", kind[i], sk);
+		snprintf(key, sizeof(key), "%s%s | %s", mode == R_BLANK ? "blank-separated: " : mode == R_TAB ? "tab-separated: " : "", kind[i], sk);
 		ex_viol(key, (double)nl, cas, cmd, "'%s' (%s): %s; lines selected %s, truth table of the written expression %s (line i = assignment i, leaf 1 = lowest bit); "
 			"smallest expression that still fails this way: '%s'", expr, rend_name[mode], kind[i], selg, sele, rexpr);
 		if (replay) {
@@ -1171,8 +1171,9 @@ struct repr {
 	int has_date, has_time;
 	int cal;		/* the calendar the value is held in */
 	const char *cls;	/* class of lines for the key: held calendar, with/without time, read with -i or not */
+	const char *loc;	/* --from-locale, judged through the binary only (main() orders parse and locale) */
 };
-enum { RP_YMD, RP_YWD, RP_YMCW, RP_YD, RP_YD_FMT, RP_BIZDA, RP_EPOCH, RP_YMD_T, RP_YWD_T, RP_TIME, RP_DMY, RP_COMPACT, RP_COMPACT_RUN, RP_DBY, NREPR };
+enum { RP_YMD, RP_YWD, RP_YMCW, RP_YD, RP_YD_FMT, RP_BIZDA, RP_EPOCH, RP_YMD_T, RP_YWD_T, RP_TIME, RP_DMY, RP_COMPACT, RP_COMPACT_RUN, RP_DBY, RP_DBY_DE, NREPR };
 static const struct repr reprs[NREPR] = {
 	{"ymd", NULL, 1, 0, CAL_YMD, "ymd dates"}, {"ywd", NULL, 1, 0, CAL_YWD, "ywd dates"}, {"ymcw", NULL, 1, 0, CAL_YMCW, "ymcw dates"},
 	{"yd", NULL, 1, 0, CAL_YD, "yd dates"}, {"yd read with -i %Y-%j", "%Y-%j", 1, 0, CAL_YD, "yd dates read with -i"},
@@ -1181,6 +1182,7 @@ static const struct repr reprs[NREPR] = {
 	{"time only", NULL, 0, 1, CAL_NONE, "times without a date"}, {"dmy read with -i %d/%m/%Y", "%d/%m/%Y", 1, 0, CAL_YMD, "ymd dates read with -i"},
 	{"compact read with -i %Y%m%d", "%Y%m%d", 1, 0, CAL_YMD, "ymd dates read with -i"},
 	{"compact behind a digit run read with -i %Y%m%d", "%Y%m%d", 1, 0, CAL_YMD, "ymd dates read with -i"}, {"dby read with -i %d%b%Y", "%d%b%Y", 1, 0, CAL_YMD, "ymd dates read with -i"},
+	{"d b Y read with -i and --from-locale de_DE", "%d %b %Y", 1, 0, CAL_YMD, "ymd dates read with -i and --from-locale", "de_DE"},
 };
 
 static void
@@ -1204,11 +1206,16 @@ repr_line(char *buf, size_t bsz, int rp, int i)
 	case RP_COMPACT: snprintf(buf, bsz, "%04d%02d%02d", p->y, p->m, p->d); break;
 	case RP_COMPACT_RUN: snprintf(buf, bsz, "x 1 %04d%02d%02d", p->y, p->m, p->d); break;
 	case RP_DBY: snprintf(buf, bsz, "%02d%s%04d", p->d, mon[p->m], p->y); break;
+	case RP_DBY_DE: {
+		static const char *const mde[13] = {"", "Jan", "Feb", "M\xc3\xa4r", "Apr", "Mai", "Jun", "Jul", "Aug", "Sep", "Okt", "Nov", "Dez"};
+		snprintf(buf, bsz, "%02d %s %04d", p->d, mde[p->m], p->y);
+		break;
+	}
 	}
 }
 
 /* atoms of the grid: constants denote the reference day / 10:00:00 */
-enum { RA_Y, RA_M, RA_D, RA_J, RA_A, RA_C, RA_G, RA_YY, RA_DATE_YMD, RA_DATE_YWD, RA_DATE_YD, RA_EPOCH, RA_DT, RA_TIME, NRATOM };
+enum { RA_Y, RA_M, RA_D, RA_J, RA_A, RA_C, RA_G, RA_YY, RA_DATE_YMD, RA_DATE_YWD, RA_DATE_YD, RA_EPOCH, RA_DT, RA_TIME, RA_OWN, RA_DB, RA_B, NRATOM };
 struct ratom {
 	const char *label, *lhs, *val;
 	int needs_date, needs_time;	/* what the line must carry for the atom to have a value */
@@ -1225,6 +1232,10 @@ static const struct ratom ratoms[NRATOM] = {
 	{"date constant yd", "", "2012-061", 1, 0, 0, CAL_YD, "date constant"},
 	{"date-time constant epoch", "", "@1330596000", 1, 1, 0, CAL_EPOCH, "date-time constant"}, {"date-time constant", "", "2012-03-01T10:00:00", 1, 1, 0, CAL_YMD, "date-time constant"},
 	{"time constant", "", "10:00:00", 0, 1, 0, -1, "time constant"},
+	/* the reference day written exactly like the lines (with -i: in that format) */
+	{"constant in the lines' own notation", "", NULL, 1, 0, 0, -2, "constant written in the lines' own notation"},
+	{"%db", "%db", "1", 1, 0, 0, -1, "specifier %db"},
+	{"%b name", "%b", "\"Mar\"", 1, 0, 1, -1, "specifier %b with a name"},
 };
 
 /* -1 below, 0 equal, +1 above: the line's value against the atom's constant; 2: not judged (reading) */
@@ -1255,6 +1266,15 @@ ratom_cmp(int ai, int rp, int i)
 	case RA_DT:
 		a = p->dnum * 86400L + p->sec, b = q->dnum * 86400L + 36000L;
 		break;
+	case RA_OWN:
+		if (reprs[rp].has_time) {
+			a = p->dnum * 86400L + p->sec, b = q->dnum * 86400L + q->sec;
+		} else {
+			a = p->dnum, b = q->dnum;
+		}
+		break;
+	case RA_DB: a = p->bd, b = 1; break;
+	case RA_B: a = p->m, b = 3; break;
 	default:
 		a = p->sec, b = 36000L;
 		break;
@@ -1873,7 +1893,7 @@ main(int argc, char *argv[])
 						}
 						*c_nontriv += (uint64_t)nt;
 					}
-					for (int mode = 0; mode < (n <= 2 ? NREND : 2); mode++) {
+					for (int mode = 0; mode < (n <= 2 || (n == 3 && set == 0) ? NREND : 2); mode++) {
 						do_tree(tree, set, mode, 0);
 					}
 					if (ex_want_sample()) {
